@@ -207,7 +207,13 @@ def itml_kappa(name, args, params, kw):
   evaluated only after a NonPSDError, with the harness' own prior / default-bounds construction."""
   try:
     if name == 'ITML':
-      P, yy = np.asarray(args[0], dtype=float), np.asarray(args[1])
+      P, yy = np.asarray(args[0]), np.asarray(args[1])
+      prep = params.get('preprocessor')
+      if callable(prep):
+        prep = getattr(prep, 'P', None)            # the harness' counting callable keeps its pool in .P
+      if P.ndim == 2 and prep is not None:
+        P = np.asarray(prep, dtype=float)[P.astype(np.int64)]          # index pairs through an array preprocessor
+      P = np.asarray(P, dtype=float)
       if P.ndim != 3:
         return 1.0
     else:
